@@ -112,7 +112,12 @@ def build_family(ctx, imp, tag):
     names = rng.sample(['RENC', 'UKY', 'LBNL', 'STAR'], rng.randrange(1, 4))
     # unusual but legal: a model whose delegation id already equals the graph id it will be merged under
     own = {n: (rng.random() < 0.35) for n in names + ['NET']}
-    did = lambda n: f'adm-{n}-{tag}' if own[n] else d
+    # graph ids are arbitrary strings: a quarter of the families use ids with characters that JSON text escapes
+    odd = rng.random() < 0.25
+    if odd:
+        ctx.count('family-with-ids-that-json-escapes')
+    gid_of = lambda n: (f'adm-{n}-Zür"ich\\{tag}' if odd else f'adm-{n}-{tag}')
+    did = lambda n: gid_of(n) if own[n] else d
     sites = [subgen.gen_site(rng, n, [did(n)], nworkers=rng.randrange(1, 3)) for n in names]
     # the network aggregate contributes at least one element of its own (an inter-site link); a model that is
     # entirely contained in the others is not generated (updating 'all nodes' of an emptied temporary graph is
@@ -125,7 +130,7 @@ def build_family(ctx, imp, tag):
         topo = subgen.build(imp, m)
         arm = subgen.arm_of(topo)
         dm = did(m.name)
-        res = arm.generate_adms(delegation_guids={dm: f'adm-{m.name}-{tag}'})
+        res = arm.generate_adms(delegation_guids={dm: gid_of(m.name)})
         if own[m.name]:
             ctx.count('model-keyed-by-its-own-graph-id')
         if dm in res:
